@@ -6,7 +6,7 @@ import pandas as pd
 from hypothesis import strategies as st
 
 from core.outcome import Outcome, discard, observe
-from gen.objects import CARVERS, PIPELINES, fit_base_discretizer, fit_object, fitted_case, make_object
+from gen.objects import CARVERS, EDIT_STEP, PIPELINES, apply_edits, fit_base_discretizer, fit_object, fitted_case, make_object
 from gen.samples import build
 from oracles.carving import Aggregate, Search, compositions, groups_of
 from oracles.mapping import content_of, eq, is_missing, known_values, ref_group, values_equal
@@ -24,7 +24,8 @@ RULE = (
     "= every consecutive grouping exactly once, each with the measure recomputed by the C01 reference (1e-9); "
     "records after a viable one are 'not checked'; the last record flagged viable is exactly the fitted grouping "
     "(as a partition of base modalities incl. the missing-value placement); history() == concatenation of the "
-    "per-feature histories. Non-trivial: a kept feature with a merged group and >= 3 tested combinations."
+    "per-feature histories. Half of the objects are then edited by hand (update_discretizer) and summary() "
+    "is judged again against the edited object. Non-trivial: a kept feature with a merged group and >= 3 tested combinations."
 )
 BOUNDS = {"rows": "12-400", "features": "1-3"}
 ASSUMPTIONS = [
@@ -39,7 +40,10 @@ INF = float("inf")
 
 
 def strategy(tier):
-    return fitted_case(CLASSES)
+    # half of the objects are also edited by hand (update_discretizer) after the fit-time checks: summary() has
+    # to describe the object as it then is (history() stays the fit-time record and is only judged before the edits)
+    edits = st.one_of(st.just([]), st.lists(EDIT_STEP, min_size=1, max_size=3))
+    return st.tuples(fitted_case(CLASSES), edits).map(lambda t: dict(t[0], edits=t[1]))
 
 
 def one_row_frame(sample, raw, value):
@@ -50,6 +54,19 @@ def one_row_frame(sample, raw, value):
     else:
         src[raw] = pd.Series([value], index=src.index, dtype=object)
     return src
+
+
+def interval_upper(text):
+    """Upper bound written in a summary interval ('x <= b', 'a < x <= b', 'a < x'); None when unreadable."""
+    import re
+
+    m = re.fullmatch(r"(?:(\S+) < )?x(?: <= (\S+))?", text.strip())
+    if not m or (m.group(1) is None and m.group(2) is None):
+        return None
+    try:
+        return float(m.group(2)) if m.group(2) is not None else INF
+    except ValueError:
+        return None
 
 
 def lab_key(lab):
@@ -138,6 +155,28 @@ def check_summary(out, obj, case, sample, dropna_all, labelled_nan=()):
             if judged != expected:
                 out.violate("summary-rows-are-not-the-fitted-groups:quantitative", f"{feat}: summary labels {sorted(map(repr, judged))} vs labels transform outputs {sorted(map(repr, expected))}")
                 continue
+            # each row describes the interval its label stands for: walking the rows by the upper bound written in
+            # their content must give the labels transform outputs on increasing values (rows whose written bounds
+            # collide after formatting are not judged)
+            uppers = []
+            for lab, content in rows:
+                texts = [c for c in content if isinstance(c, str) and c != STR_NAN]
+                bound = interval_upper(texts[0]) if len(texts) == 1 else None
+                if texts and bound is None:
+                    uppers = None
+                    break
+                if texts:
+                    uppers.append((bound, lab_key(lab)))
+            sequence = []
+            for v in tr.value[feat].tolist():
+                if lab_key(v) not in sequence:
+                    sequence.append(lab_key(v))
+            if uppers and len({b for b, _ in uppers}) == len(uppers):
+                described = [lab for _, lab in sorted(uppers, key=lambda t: t[0])]
+                if described != sequence:
+                    out.violate("summary-intervals-not-those-of-transform:quantitative", f"{feat}: rows by written upper bound give labels {described!r} but increasing probes {probes!r} are transformed to {sequence!r}")
+                    continue
+                out.label("summary:interval-order-judged")
             if has_nan and dropna:
                 if nan_rows != [nan_label]:
                     out.violate("summary-missing-values-not-in-their-group", f"{feat}: '__NAN__' listed under {nan_rows!r} but transform sends missing values to {nan_label!r}; rows {rows!r}")
@@ -318,4 +357,9 @@ def check_case(case) -> Outcome:
     else:
         # summary-only objects: non-trivial when some group merges several values
         out.nontrivial = any(len(content_of(obj.values_orders[f], l)) > 1 for f in obj.features for l in obj.values_orders[f])
+    if case.get("edits") and cls != "MulticlassCarver" and out.status == "ok":
+        ok, labelled_nan, edit_labels = apply_edits(obj, case, case["edits"])
+        if ok and edit_labels:  # edits that raise are C17's subject
+            out.label(*edit_labels)
+            check_summary(out, obj, case, sample, dropna, labelled_nan)
     return out
